@@ -8,7 +8,9 @@ package main
 
 import (
 	"bufio"
+
 	"fmt"
+	"github.com/karino2/folang/pkg/frt"
 	"os"
 	"sort"
 	"strconv"
@@ -63,6 +65,9 @@ func main() {
 		libBuf(seed, count)
 	case "lib.frt":
 		libFrt(seed, count)
+	case "lib.floathole":
+		// known finding D11 (C11): what a float-typed hole renders as
+		fmt.Fprintf(out, "R %s\n", frt.SInterP("%s", 1.5))
 	default:
 		fmt.Fprintln(os.Stderr, "unknown stream", stream)
 		os.Exit(2)
